@@ -336,7 +336,7 @@ pub fn run(ctx: &mut Ctx) -> (&'static str, String, bool) {
         ctx.merge(p);
     }
     for s in ["0.7F", "0.04k", "0.7f12", "1.A0", "0.7", "7F", "0.7F-", "٣A"] {
-        ctx.sample(json!({"input": s, "parsed": format!("{:?}", GameVersion::from_str(s))}));
+        ctx.sample(json!({"input": s, "parsed": format!("{:?}", guarded(|| GameVersion::from_str(s)))}));
     }
     ctx.assume("non-finite numbers (only reachable from absurdly long digit strings) are exempt from the print/re-parse clause, as the property states");
     (
